@@ -400,7 +400,7 @@ def run_scan(ctx, base, rng):
 
 
 # ---- family C: two importers, statement interleavings -----------------------------------------------------------------------------
-def run_concurrent(base, pre, choose):
+def run_concurrent(base, pre, choose, decoy=False):
     from alpenhorn.daemon import auto_import as AI
     from alpenhorn.daemon import update as U
 
@@ -414,6 +414,9 @@ def run_concurrent(base, pre, choose):
     (pathlib.Path(node.root) / "acq").mkdir()
     (pathlib.Path(node.root) / "acq" / "f").write_bytes(content)
     crow = None
+    if decoy:
+        # another acquisition already has a file of the same name (registered elsewhere, not on this node)
+        w.mkfile(w.mkacq("another"), "f", b"something else")
     if pre in ("acq", "file", "copyNY", "copyNN"):
         a = w.mkacq("acq")
         if pre != "acq":
@@ -454,7 +457,10 @@ def run_concurrent(base, pre, choose):
         res, stuck = S.run()
     finally:
         del sdb.execute_sql
-    counts = (w.ArchiveAcq.select().count(), w.ArchiveFile.select().count(), w.ArchiveFileCopy.select().count())
+    counts = (w.ArchiveAcq.select().count() - decoy, w.ArchiveFile.select().count() - decoy, w.ArchiveFileCopy.select().count())
+    wrong = [f"{x.file.acq.name}/{x.file.name}" for x in w.ArchiveFileCopy.select() if x.file.acq.name != "acq"]
+    if wrong:
+        errors.append(f"a copy of {wrong} was recorded on the node, which holds only acq/f")
     c = w.ArchiveFileCopy.get_or_none()
     after = (c.has_file, c.wants_file) if c else None
     nreq = w.ArchiveFileCopyRequest.select().count()
@@ -473,10 +479,11 @@ def explore_concurrent(ctx, base, cap):
             else:
                 r2 = __import__("random").Random(rng.getrandbits(32))
                 chooser = lambda k, r2=r2: r2.randrange(k)  # noqa: E731
-            crow, after, counts, errors, stuck, trace = run_concurrent(base, pre, chooser)
+            decoy = n % 2 == 1
+            crow, after, counts, errors, stuck, trace = run_concurrent(base, pre, chooser, decoy)
             ctx.count("two-importers")
-            ctx.distinct_add(("conc", pre, tuple(c for c, _ in trace)))
-            rp = {"family": "concurrent", "pre": pre, "schedule": [c for c, _ in trace]}
+            ctx.distinct_add(("conc", pre, decoy, tuple(c for c, _ in trace)))
+            rp = {"family": "concurrent", "pre": pre, "same_name_in_another_acquisition": decoy, "schedule": [c for c, _ in trace]}
             if errors or stuck:
                 ctx.fail("C04:concurrent-abort", f"two importers (pre-state {pre}): exceptions {errors}, stuck {stuck}", rp)
             if counts != (1, 1, 1):
